@@ -301,6 +301,10 @@ class ServerSocket(FakeSocket):
             peer.connections += 1
             peer.conn_log.append({'msgs': [], 'closed': False})
         self.peer = peer
+        d = getattr(peer, 'delays', {}).get(self.n)
+        if d:
+            import time
+            time.sleep(d)                 # a slow accept: lets another target's scan finish meanwhile (forced interleaving)
         self.inbuf = b''
         self.got_banner = False
         self.hostkey_type = None
